@@ -344,7 +344,8 @@ def evaluate(world, drv, plan=None, model_faults=None, oracles=("C01", "C04", "C
                     if p.startswith(fdir + b"/") and b"/" not in p[len(fdir) + 1:] and p not in before:
                         nm = p[len(fdir) + 1:]
                         mm = re.fullmatch(rb"(?s)(.*)_(\d+)", nm)
-                        shortened = bool(mm) and mm.group(1) == bn[:max(len(bn) - len(b"_" + mm.group(2) + b".trashinfo"), 0)]
+                        shortened = bool(mm) and len(bn) + len(b".trashinfo") > 255 and \
+                            mm.group(1) == bn[:max(len(bn) - len(b"_" + mm.group(2) + b".trashinfo"), 0)]
                         if single or nm == bn or re.fullmatch(re.escape(bn) + rb"_\d+", nm) or shortened:
                             got = d["dir"]
             return got
@@ -408,6 +409,32 @@ def evaluate(world, drv, plan=None, model_faults=None, oracles=("C01", "C04", "C
                     problems.append("Path of %r decodes to %r, the entry trashed is %r (recorded form %r)" % (pth, loc, ent, want_))
                 elif any(d["dir"] == tdir_ and d["kind"] in ("home", "top", "alt") for d in facts["dirs"]) and b"\n" not in ent:
                     listed_back.append((datestr.replace(b"T", b" ") + b" " + ent, pth))
+            if world.get("opts", {}).get("realPutClock"):
+                # the program's own clock: DeletionDate is the LOCAL time (zone of the world's TZ) at which the run happened
+                import time as _time
+                tz_ = world.get("env", {}).get("TZ")
+                old_tz = os.environ.get("TZ")
+                try:
+                    if tz_ is not None:
+                        os.environ["TZ"] = os.fsdecode(tz_)
+                    _time.tzset()
+                    lo = _dt.datetime(*_time.localtime(obs["t0"] - 1)[:6])
+                    hi = _dt.datetime(*_time.localtime(obs["t1"] + 1)[:6])
+                finally:
+                    if old_tz is None:
+                        os.environ.pop("TZ", None)
+                    else:
+                        os.environ["TZ"] = old_tz
+                    _time.tzset()
+                try:
+                    d = _dt.datetime.strptime(datestr.decode("ascii"), "%Y-%m-%dT%H:%M:%S")
+                except ValueError:
+                    problems.append("unreadable date %r" % datestr)
+                    continue
+                if not (lo <= d <= hi):
+                    problems.append("DeletionDate %s of %r is not the local time of trashing (zone %r: between %s and %s)"
+                                    % (datestr.decode(), pth, tz_, lo, hi))
+                continue
             created = [i for i, rec in enumerate(trace) if rec[0] == "createExcl" and rec[2] == "ok" and rec[1] and
                        bytes.fromhex(rec[1][0]) == pth]
             if not created:
